@@ -346,7 +346,7 @@ static str ref_dispatch(const str &text, const std::vector<toks> &tables, const 
 }
 
 // ---------------------------------------------------------------- run
-static void run_argv(bool bounded, const str &text, int argcmax, out &o)
+static void run_argv(bool bounded, const str &text, int argcmax, out &o, bool judge_term = false)
 {
     // data: bounded -> exactly the bytes; terminated -> text + NUL
     str data = bounded ? text : cz(text);
@@ -378,7 +378,9 @@ static void run_argv(bool bounded, const str &text, int argcmax, out &o)
         o.fail("argc " + std::to_string(argc) + " > argcmax " + std::to_string(argcmax));
     // white space: " \r\n\t"; the terminated variant stops at the first NUL, the
     // bounded variant cannot hold a NUL inside a C-string token: NUL separates
-    toks want = bounded ? ref_runs(text, WS_ARGV + str(1, '\0')) : ref_runs(upto_nul(text), WS_ARGV);
+    // argvnz (probe of the recorded finding): the bounded variant judged as "the safe
+    // variant of argvc_internal_split": white-space runs of the line up to its terminator
+    toks want = bounded && !judge_term ? ref_runs(text, WS_ARGV + str(1, '\0')) : ref_runs(upto_nul(text), WS_ARGV);
     bool truncated = want.size() > (size_t)argcmax;
     want = take(want, argcmax);
     if (got != want)
@@ -1125,9 +1127,9 @@ static void run_op(const std::vector<std::string> &w, const std::string &, out &
         if (!s.empty() && s.back() == ' ') o.tag("cmd-trailing-space");
         return;
     }
-    if (op == "argvn" || op == "argv")
+    if (op == "argvn" || op == "argv" || op == "argvnz")
     {
-        run_argv(op == "argvn", U(w[1]), atoi(w[2].c_str()), o);
+        run_argv(op != "argv", U(w[1]), atoi(w[2].c_str()), o, op == "argvnz");
         return;
     }
     if (op == "msh" || op == "msht")
@@ -1214,6 +1216,26 @@ static void run_op(const std::vector<std::string> &w, const std::string &, out &
         if (path_compare_node(b.p, a.p) != -r)
             o.fail("path_compare_node not antisymmetric");
         o.tag(r == 0 ? "pcmp-eq" : r < 0 ? "pcmp-lt" : "pcmp-gt");
+        return;
+    }
+    if (op == "premc")
+    {
+        // probe of the recorded finding: path_remove_prefix judged by the components
+        // path_next enumerates (leading "./" pieces are no components)
+        str tp = U(w[1]), tq = U(w[2]), p = upto_nul(tp), q = upto_nul(tq);
+        xbuf a(cz(tp)), b(cz(tq));
+        const char *r = path_remove_prefix(a.p, b.p);
+        o.result = r ? std::to_string(r - a.p) : "null";
+        std::vector<comp> cp, cq;
+        for (auto &c : raw_comps(p)) if (real(c)) cp.push_back(c);
+        for (auto &c : raw_comps(q)) if (real(c)) cq.push_back(c);
+        size_t i = 0;
+        while (i < cp.size() && i < cq.size() && cp[i].s == cq[i].s)
+            i++;
+        str want = std::to_string(i < cp.size() ? cp[i].pos : p.size());
+        if (o.result != want)
+            o.fail("path_remove_prefix " + o.result + " != after the common leading components " + want);
+        o.tag("premc");
         return;
     }
     if (op == "prem")
@@ -1342,6 +1364,41 @@ static str names_arg(const toks &v)
 #define P(...) printf(__VA_ARGS__)
 static const char *F_NUL = "@F:C19-split-delims-nul ";
 
+static const char *F_ARGVN = "@F:C19-argvn-nul-not-terminator ";
+static const char *F_PREMC = "@F:C19-path-remove-prefix-leading-dot ";
+// probe where "NUL is one more separator" (the code) and "the line ends at its
+// terminator" (argvc.h: safe variant of argvc_internal_split) give different arguments
+static void emit_argvn_probe(const str &s, int m)
+{
+    if (s.find('\0') == str::npos || m <= 0)
+        return;
+    if (take(ref_runs(s, WS_ARGV + str(1, '\0')), m) != take(ref_runs(upto_nul(s), WS_ARGV), m))
+        P("%sargvnz %s %d\n", F_ARGVN, H(s).c_str(), m);
+}
+// probe where a leading single-dot piece makes the node reading (the code) and the
+// component reading differ
+static void emit_premc_probe(const str &tp, const str &tq)
+{
+    str p = upto_nul(tp), q = upto_nul(tq);
+    auto dot = [](const str &x) { return x == "." || x.compare(0, 2, "./") == 0; };
+    if (!dot(p) && !dot(q))
+        return;
+    auto np = nodes(p), nq = nodes(q);
+    size_t i = 0;
+    while (i < np.size() && i < nq.size() && np[i].s == nq[i].s)
+        i++;
+    size_t code = i < np.size() ? np[i].pos : p.size();
+    std::vector<comp> cp, cq;
+    for (auto &c : raw_comps(p)) if (real(c)) cp.push_back(c);
+    for (auto &c : raw_comps(q)) if (real(c)) cq.push_back(c);
+    size_t k = 0;
+    while (k < cp.size() && k < cq.size() && cp[k].s == cq[k].s)
+        k++;
+    size_t want = k < cp.size() ? cp[k].pos : p.size();
+    if (code != want)
+        P("%spremc %s %s\n", F_PREMC, H(tp).c_str(), H(tq).c_str());
+}
+
 static void emit_unary(const str &s)
 {
     str h = H(s);
@@ -1350,6 +1407,7 @@ static void emit_unary(const str &s)
     P("%ssplitd %s 202f\n", nul ? F_NUL : "", h.c_str());
     P("trim %s\ncmdargs %s\ncreader %s\n", h.c_str(), h.c_str(), h.c_str());
     P("argvn %s 2\nargv %s 2\n", h.c_str(), h.c_str());
+    emit_argvn_probe(s, 2);
     P("pnext %s\npiter %s\n", h.c_str(), h.c_str());
 }
 
@@ -1548,6 +1606,7 @@ static void gen(rng &r, const std::string &tier)
     all_strings(str(" \n\r\ta\0", 6), th ? 5 : 4, [&](const str &s) {
         str h = H(s);
         P("trim %s\nargv %s 3\nargvn %s 3\ncreader %s\n", h.c_str(), h.c_str(), h.c_str(), h.c_str());
+        emit_argvn_probe(s, 3);
         P("%ssplitd %s 0a0d09\n", s.find('\0') != str::npos ? F_NUL : "", h.c_str());
     });
     //     both quote characters
@@ -1555,7 +1614,10 @@ static void gen(rng &r, const std::string &tier)
     //     argcmax 0..3 on short lines
     all_strings(str(" a\t\0", 4), 5, [&](const str &s) {
         for (int m = 0; m <= 3; m++)
+        {
             P("argvn %s %d\nargv %s %d\n", H(s).c_str(), m, H(s).c_str(), m);
+            emit_argvn_probe(s, m);
+        }
     });
     //     memmem: every haystack <= 6 x needle <= 3 over {a, /, NUL}
     {
@@ -1617,7 +1679,10 @@ static void gen(rng &r, const std::string &tier)
         all_strings("a/.", th ? 5 : 4, [&](const str &s) { qs.push_back(s); });
         for (auto &a : qs)
             for (auto &b : qs)
+            {
                 P("prem %s %s\n", H(a).c_str(), H(b).c_str());
+                emit_premc_probe(a, b);
+            }
         all_strings("ab/.", th ? 8 : 7, [&](const str &s) { P("pnext %s\npiter %s\n", H(s).c_str(), H(s).c_str()); }, 6);
     }
     //     dispatchers: every line <= 4 over {space, a, b, tab, NUL} x command tables of 0..3 entries
@@ -1687,6 +1752,8 @@ static void gen(rng &r, const std::string &tier)
             str p1 = mk(), p2 = r.chance(60) ? p1.substr(0, r.below(p1.size() + 1)) + (r.chance(30) ? mk() : "") : mk();
             P("pnext %s\npiter %s\npcmp %s %s\nprem %s %s\nprem %s %s\n", H(p1).c_str(), H(p1).c_str(), H(p1).c_str(), H(p2).c_str(), H(p1).c_str(),
               H(p2).c_str(), H(p2).c_str(), H(p1).c_str());
+            emit_premc_probe(p1, p2);
+            emit_premc_probe(p2, p1);
         }
         // command lines: words from a pool, 0..14 of them, random white space
         {
